@@ -63,7 +63,7 @@ pub fn number_regex_parser(config: &SmartCalcConfig, tokinizer: &mut Tokinizer, 
                         match capture.name("NOTATION") {
                             Some(notation) => {
                                 notation_match = Some(notation);
-                                num * match notation.as_str() {
+                                let multiplier = match notation.as_str() {
                                     "k" | "K" => 1_000.0,
                                     "M" => 1_000_000.0,
                                     "G" => 1_000_000_000.0,
@@ -72,7 +72,13 @@ pub fn number_regex_parser(config: &SmartCalcConfig, tokinizer: &mut Tokinizer, 
                                     "Z" => 1_000_000_000_000_000_000.0,
                                     "Y" => 1_000_000_000_000_000_000_000.0,
                                     _ => 1.0
+                                };
+
+                                /* A recognised notation belongs to the number, it must not be read again as a text */
+                                if multiplier > 1.0 {
+                                    parse_end = notation.end();
                                 }
+                                num * multiplier
                             },
                             _ => num
                         }
